@@ -33,6 +33,57 @@ pub fn ids_str(ids: &[usize]) -> String {
     }
 }
 
+/// (local name, namespace URI) of every element followed by its attributes (declarations left
+/// out), in document order, resolved from the tokens; `None` when a prefix does not resolve or a
+/// value does not decode (the parse is then refused anyway).
+pub fn expected_expanded_names(toks: &[Tok]) -> Option<Vec<(String, String)>> {
+    let mut out = vec![];
+    let mut scopes: Vec<Vec<(String, String)>> = vec![vec![("xml".to_string(), XML_NS.to_string())]];
+    let lookup = |scopes: &Vec<Vec<(String, String)>>, p: &str| -> Option<String> {
+        scopes.iter().rev().find_map(|f| f.iter().rev().find(|(q, _)| q == p).map(|(_, u)| u.clone()))
+    };
+    let mut i = 0;
+    while i < toks.len() {
+        match &toks[i] {
+            Tok::ElemStart { prefix, local } => {
+                let mut frame = vec![];
+                let mut attrs = vec![];
+                let mut j = i + 1;
+                while let Some(Tok::Attr { prefix: ap, local: al, value, .. }) = toks.get(j) {
+                    if ap == "xmlns" {
+                        frame.push((al.clone(), xot::verif_hooks::parse_attribute(value, 0).ok()?));
+                    } else if ap.is_empty() && al == "xmlns" {
+                        frame.push((String::new(), xot::verif_hooks::parse_attribute(value, 0).ok()?));
+                    } else {
+                        attrs.push((ap.clone(), al.clone()));
+                    }
+                    j += 1;
+                }
+                scopes.push(frame);
+                let ens = if prefix.is_empty() { lookup(&scopes, "").unwrap_or_default() } else { lookup(&scopes, prefix)? };
+                out.push((local.clone(), ens));
+                let mut resolved = vec![];
+                for (ap, al) in attrs {
+                    let u = if ap.is_empty() { String::new() } else { lookup(&scopes, &ap)? };
+                    resolved.push((al, u));
+                }
+                // the attribute view is a map in insertion order: document order
+                out.extend(resolved);
+                if let Some(Tok::EndEmpty) = toks.get(j) {
+                    scopes.pop();
+                }
+                i = j;
+            }
+            Tok::EndClose { .. } => {
+                scopes.pop();
+                i += 1;
+            }
+            _ => i += 1,
+        }
+    }
+    Some(out)
+}
+
 impl<'a> Hist<'a> {
     pub fn new(bank: &'a Bank, fails: &'a mut Fails, sink: &'a mut Sink) -> Self {
         let mut h = Hist { cur: State::new(), other: None, bank, fails, sink, recent: vec![] };
@@ -381,7 +432,37 @@ impl<'a> Hist<'a> {
     /// which entries the call adds to the three tables and under which ids.
     pub fn parse_text(&mut self, doc: &str, fragment: bool) {
         let dump = dump_tokens(doc, fragment);
-        let r = guarded(|| if fragment { self.cur.xot.parse_fragment(doc).is_ok() } else { self.cur.xot.parse(doc).is_ok() });
+        let parsed = guarded(|| if fragment { self.cur.xot.parse_fragment(doc).ok() } else { self.cur.xot.parse(doc).ok() });
+        let r = parsed.map(|o| o.is_some());
+        if let Some(Some(root)) = parsed {
+            // names compare equal exactly when their expanded names are equal: every element and
+            // attribute name of the parsed tree denotes the expanded name the document spells
+            // (resolved here from the tokens, independently of the interning tables)
+            if let Some(expected) = expected_expanded_names(&dump.toks) {
+                let x = &self.cur.xot;
+                let got = guarded(|| {
+                    let mut v: Vec<(String, String)> = vec![];
+                    for n in x.descendants(root) {
+                        if let Some(e) = x.element(n) {
+                            let (l, u) = x.name_ns_str(e.name());
+                            v.push((l.to_string(), u.to_string()));
+                            for (a, _) in x.attributes(n).iter() {
+                                let (l, u) = x.name_ns_str(a);
+                                v.push((l.to_string(), u.to_string()));
+                            }
+                        }
+                    }
+                    v
+                });
+                self.sink.stat("parse.expanded-names-checked");
+                if got.as_ref() != Some(&expected) {
+                    self.fail(
+                        "C08:parsed-name-denotes-another-expanded-name",
+                        format!("parse({:?}): the names of the tree denote {:?}, the document spells {:?}", doc, got, expected),
+                    );
+                }
+            }
+        }
         self.sink.stat(match r {
             Some(true) => "parse.ok",
             Some(false) => "parse.err",
